@@ -18,17 +18,22 @@ def picture(rng, n):
     return bytes((i * 7) % 256 for i in range(n))
 
 
-def expected(cf):
+def stale_pfail(rng):
+    return L.spec("pfail", str(rng.choice([5, 50])), "x", "size", str(rng.choice([3, 8, 99999])), "type", rng.choice(["image/stale", "x"]),
+                  *rng.choice([[], ["file", "other.flac"]]))
+
+
+def expected(cf, terse=False):
     """What the property demands from the server configuration alone."""
     if cf["rperr"] is not None and cf["rperr"] != 5 and not cf["norp"]:
-        return f"ack({cf['rperr']},0,{hexs('readpicture')},{hexs('err')})[]"
+        return f"ack({cf['rperr']},0,{hexs('readpicture')},{hexs('' if terse else 'err')})[]"
     emb_ok = cf["emb"] is not None and not cf["norp"] and cf["rperr"] is None
     if emb_ok:
         return f"art:some({hexs(cf['emb'])},{hexs(cf['mime']) if cf['mime'] is not None else '~'})"
     if cf["file"] is not None:
         return f"art:some({hexs(cf['file'])},~)"
     if cf["fileack"]:
-        return f"ack(50,0,{hexs('albumart')},{hexs('No file exists')})[]"
+        return f"ack(50,0,{hexs('albumart')},{hexs('' if terse else 'No file exists')})[]"
     return "art:none"
 
 
@@ -69,6 +74,9 @@ def gen(ctx):
                 nreq = int(2.8 * (size // limit)) + 10
                 # the order of the header lines of a picture reply is the server's business (hdrN uris: type first, a foreign line among them)
                 uri = URI if rng.random() < 0.6 else rng.choice(["hdr1/a.flac", "hdr2/b.flac", "hdr3/c.flac"])
+                if src in ("norp+file", "none+ack", "rperr5+file", "rperr50") and rng.random() < 0.5:
+                    uri = "terse/d.flac"          # a server whose ACK lines carry no message text
+                cf["uri"] = uri
                 labels = ["D0", "a1:" + hexs(uri)]
                 if rng.random() < 0.25:
                     # the application has dropped its ConnectionEvents (allowed) and subsystems change before / while the picture loads
@@ -102,6 +110,9 @@ def gen(ctx):
                         ("noemb-again.mp3", f"art:some({hexs(fil)},~)"), ("tagged.flac", f"art:some({hexs(emb)},{hexs(b'image/png')})")]}
         labels = ["D0"]
         for i, (uri, _) in enumerate(cf["multi"]):
+            if rng.random() < 0.5:
+                # a command that fails after it has printed lines a picture reply could be mistaken for (listfiles prints "size:" per file)
+                labels += [f"c{70 + i}:" + stale_pfail(rng)] + (["S*", "D0"] if rng.random() < 0.5 else [])
             labels += [f"a{i + 1}:" + hexs(uri)]
             if rng.random() < 0.5:
                 labels += [f"c{50 + i}:" + L.spec("echo", f"o{i}"), f"x{50 + i}"]        # a caller that gives up while queued
@@ -109,6 +120,18 @@ def gen(ctx):
         labels += L.flush(4)
         c = L.conf(emb=emb, mime=b"image/png", file=fil, limit=limit)
         items.append((L.Sched(conf=c, labels=labels, note=f"four loads on one connection, limit {limit}"), cf))
+    # a picture loaded right after (or queued behind) a command that failed halfway through output that looks like a picture header
+    for src in ("emb+mime", "file", "emb"):
+        for wait in ([], ["S*", "D0"], ["S*", "D0", "t200", "S*", "D0"]):
+            for _ in range(2 if ctx.tier == "quick" else 10):
+                pic = picture(rng, rng.choice([10, 40]))
+                cf = {"emb": pic if src != "file" else None, "mime": b"image/jpeg" if src == "emb+mime" else None, "file": pic if src == "file" else None,
+                      "norp": False, "limit": 4, "fileack": False, "rperr": None}
+                exp = expected(cf)
+                cf["multi"] = [(URI, exp)]
+                labels = ["D0", "c9:" + stale_pfail(rng)] + wait + ["a1:" + hexs(URI)] + ["S*", "D0"] * 16 + L.flush(3)
+                items.append((L.Sched(conf=L.conf(emb=cf["emb"], mime=cf["mime"], file=cf["file"], limit=4), labels=labels,
+                                      note=f"{src}: a load right after a command that failed after partial, picture-like output"), cf))
     # hundreds of loads issued at once on one connection (more than any small bound on a queue): every one gets its picture
     for ncall in (260, 400):
         emb = picture(rng, 20)
@@ -216,7 +239,7 @@ def run(ctx, only=None):
             if not (got == "closed" or got.startswith("proto:")):
                 v.append(f"the connection ended in the middle of the transfer, but album_art returned {got[:120]} instead of the failure ({s.note})")
         elif cf:
-            exp = expected(cf)
+            exp = expected(cf, terse=str(cf.get("uri", "")).startswith("terse"))
             got = t.results().get(1, (None, "<never resolved>"))[1]
             if got != exp:
                 v.append(f"album_art returned {got[:160]}...; the server holds {exp[:160]}... ({s.note})")
